@@ -522,9 +522,11 @@ theorem closed_onCommit (ops : DeeOps D) (st : Style) (u : UD D) (segs : List Se
 theorem closed_onDelete (ops : DeeOps D) (u : UD D) (e : Entry) (h : u.Closed) : (u.onDelete ops e).Closed :=
   closed_updateEntry ops u e.key (-1) h
 
-theorem closed_onQuery (st : Style) (u : UD D) (h : u.Closed) : (u.onQuery st).Closed := by
+theorem closed_onQuery (st : Style) (u : UD D) (lookup : Bool) (h : u.Closed) : (u.onQuery st lookup).Closed := by
   cases st
-  · exact closed_fetchTick _ (closed_commitPending u h)
+  · cases lookup
+    · exact closed_commitPending u h
+    · exact closed_fetchTick _ (closed_commitPending u h)
   · exact closed_commitPending u h
 
 theorem closed_unhandledKey (u : UD D) (kc md : Nat) (now : Int) (h : u.Closed) : (u.unhandledKey kc md now).Closed := by
